@@ -159,6 +159,62 @@ def additive_oracle(ck, m, table, stats):
                 return
 
 
+EXPR_DIMS = [("DATE_TRUNC('day', created) + INTERVAL 5 HOUR", lambda t: cal.trunc("day", t) + 5 * 3600),
+             ("DATE_TRUNC('week', created) + INTERVAL 6 DAY", lambda t: cal.trunc("week", t) + 6 * 86400),
+             ("DATE_TRUNC('month', created) + INTERVAL 14 DAY", lambda t: cal.trunc("month", t) + 14 * 86400),
+             ("DATE_TRUNC('hour', created) + INTERVAL 30 MINUTE", lambda t: cal.trunc("hour", t) + 1800),
+             ("created + INTERVAL 90 MINUTE", lambda t: t + 5400),
+             ("DATE_TRUNC('day', created)", lambda t: cal.trunc("day", t)),
+             ("created - INTERVAL 1 DAY", lambda t: t - 86400)]
+
+
+def expression_dims(ck, rng, n, stats):
+    """time dimensions defined by an expression (a truncation plus an offset, a shifted column): requested at granularity g the
+    rows are grouped by trunc g of the EXPRESSION's value — real compile() rows vs calendar arithmetic on the base rows"""
+    from sidemantic import Dimension, Metric, Model, SemanticLayer
+    for _ in range(n):
+        sql, f = rng.choice(EXPR_DIMS)
+        base_gran = rng.choice(["hour", "day", "week", "month"])
+        layer = SemanticLayer(auto_register=False)
+        layer.add_model(Model(name="orders", table="orders_t", primary_key="id",
+                              dimensions=[Dimension(name="shifted", type="time", sql=sql, granularity=base_gran)],
+                              metrics=[Metric(name="tot", agg="sum", sql="amount"), Metric(name="cnt", agg="count")]))
+        con = layer.conn
+        con.execute("SET TimeZone='UTC'"); con.execute("SET threads=1"); con.execute("SET disabled_optimizers='statistics_propagation'")
+        con.execute("CREATE TABLE orders_t(id BIGINT, created TIMESTAMP, amount BIGINT)")
+        pool = [t for t in c09.boundary_timestamps(rng, False) if 788918400 <= t <= 2051222400]      # 1995 .. 2035
+        stamps = [rng.choice(pool) + rng.choice([0, 3599, 7200, 86399]) for _ in range(rng.choice([6, 15]))] + [None]
+        rows = [(i, None if t is None else c09.ts_of(t), rng.choice([1, 5, 10])) for i, t in enumerate(stamps)]
+        con.executemany("INSERT INTO orders_t VALUES (?,?,?)", rows)
+        grans = rng.sample(cal.GRANS, rng.choice([1, 1, 2]))
+        if rng.random() < 0.2:
+            grans = [None]          # unsuffixed: the declared base granularity
+        refs = [f"orders.shifted__{g}" if g else "orders.shifted" for g in grans]
+        try:
+            got = con.execute(layer.compile(metrics=["orders.tot", "orders.cnt"], dimensions=refs)).fetchall()
+        except Exception as e:  # noqa: BLE001
+            ck.fail_input(f"time dimension defined as {sql!r} requested at {grans}: {type(e).__name__}", {"sql": sql, "base_granularity": base_gran, "granularities": grans, "error": repr(e)[:300]})
+            continue
+        want = {}
+        for (i, ts, amt), t in zip(rows, stamps):
+            key = tuple(None if t is None else cal.trunc(g or base_gran, f(t)) for g in grans)
+            a, c = want.get(key, (0, 0))
+            want[key] = (a + amt, c + 1)
+        import datetime
+        def secs(v):
+            if v is None:
+                return None
+            if isinstance(v, datetime.date) and not isinstance(v, datetime.datetime):
+                v = datetime.datetime(v.year, v.month, v.day)
+            return int((v - E.EPOCH).total_seconds())
+        have = {tuple(secs(v) for v in r[:len(grans)]): (r[len(grans)], r[len(grans) + 1]) for r in got}
+        stats["expression_dim_queries"] = stats.get("expression_dim_queries", 0) + 1
+        if have != want:
+            ck.fail_input(f"time dimension defined as {sql!r} (base granularity {base_gran}) requested at {grans} is not grouped by the truncation of its value",
+                          {"sql": sql, "base_granularity": base_gran, "granularities": grans, "timestamps": stamps,
+                           "got": {str(k): v for k, v in sorted(have.items(), key=str)}, "expected": {str(k): v for k, v in sorted(want.items(), key=str)}})
+
+
 def run(ck: Check):
     ck.prove("SideVerif.Properties.C07", ["SideVerif.Proofs.Calendar"])
     rng = ck.rng
@@ -247,10 +303,11 @@ def run(ck: Check):
         c01.directed_search(ck, [c for c in cases if c.get("_mismatch")], stats)
     if stats["disagree"] == 0:
         ck.obligation("correspondence C07: SQLGenerator vs genSingle on time-dimension cases (structural + behavioural)", True, f"{len(cases)} cases agree")
+    expression_dims(ck, rng, 300 if thorough else 40, stats)
     ck.coverage.update({
         "evaluations": len(stamps) * 6 + len(fn_cases) + len(cases) + stats["additive_pairs"],
         "distinct_nontrivial": len(stats["nontrivial"]) + sum(1 for r in fn_real if r["validate"] not in ([], "value_error")),
-        "rule": "boundary/random timestamps x 6 granularities vs DuckDB; random reference lists (valid, misspelt, bad/extra granularity, extra dots) through validate_query and _apply_default_time_dimensions; time-dimension models (any base granularity, default_time_dimension/default_grain) x tables with month/quarter/year-straddling timestamps x queries with 0-3 granularities; additive roll-up relation for every refining pair on real rows",
+        "rule": "boundary/random timestamps x 6 granularities vs DuckDB; random reference lists (valid, misspelt, bad/extra granularity, extra dots) through validate_query and _apply_default_time_dimensions; time-dimension models (any base granularity, default_time_dimension/default_grain) x tables with month/quarter/year-straddling timestamps x queries with 0-3 granularities; additive roll-up relation for every refining pair on real rows; time dimensions defined by an expression (truncation plus offset, shifted column) requested at every granularity vs calendar arithmetic",
         "validation_error_kinds": dict(kinds), "outcome_distribution": dict(stats["outcomes"]), "additive_pairs_checked": stats["additive_pairs"],
         "cases_inside_theorem_C01_grouped": stats.get("covered", 0), "traces_validated_against_impl": len(fn_cases) + len(cases),
         "samples": [{"metrics": fn_cases[0]["metrics"], "dims": fn_cases[0]["dims"]}, c01.strip(cases[0])],
